@@ -45,6 +45,7 @@ class Tr:
         self.defs = []          # defining constraints of auxiliary variables (sqrt, floor ...)
         self.apps = {}          # fname -> list of (argtuple z3, value var)
         self.appkey = {}        # (fname, argkeys) -> value var
+        self.exp_atoms = {}     # key of atom a -> {d: z3 var of exp(a/d)}
         self.n = 0
 
     # ------------------------------------------------------------------ variables
@@ -226,9 +227,37 @@ class Tr:
                 continue
             r = f if r is None else r * f
         for t in rest:
-            f = self.fn_exp(self.tr(t))
+            f = self.exp_term(t)
             r = f if r is None else r * f
         return r if r is not None else z3.RealVal(1)
+
+    def exp_term(self, t):
+        """exp(q * a) for a rational q = p/d and a coefficient-free atom a is E**p with E = exp(a/d) > 0, so that
+        exp(x)*exp(-x) = 1, exp(2x) = exp(x)**2, exp(x/2)**2 = exp(x) are arithmetic facts and not lost to the
+        uninterpreted treatment of exp.  Bases exp(a/d1), exp(a/d2) of one atom are linked in `axioms`."""
+        c, a = t.as_coeff_Mul()
+        if a == 1:
+            a = sympy.Integer(1)
+        try:
+            q = sympy.Rational(repr(float(c))) if c.is_Float else sympy.Rational(c)
+        except (TypeError, ValueError):
+            return self.fn_exp(self.tr(t))
+        if c.is_Float and q.q > 12:
+            q = sympy.nsimplify(c, rational=True, tolerance=1e-15)
+            if not (q.is_Rational and abs(float(q) - float(c)) == 0):
+                return self.fn_exp(self.tr(t))
+        p, d = int(q.p), int(q.q)
+        if p == 0:
+            return z3.RealVal(1)
+        if d > 12 or abs(p) > 12:
+            return self.fn_exp(self.tr(t))
+        x = self.tr(a)
+        base = self.fn_exp(x if d == 1 else x / d)
+        self.exp_atoms.setdefault(x.sexpr(), {})[d] = base
+        f = base
+        for _ in range(abs(p) - 1):
+            f = f * base
+        return f if p > 0 else 1 / f
 
     def fn_exp(self, x):
         v = self.app('exp', x)
@@ -293,6 +322,17 @@ class Tr:
                     ax += [z3.Implies(x == 1, v == 0), z3.Implies(x > 0, v <= x - 1)]
                 elif fname == 'PHI':
                     ax += [v > 0, v < 1]
+        # bases of one atom with different denominators: exp(a/d1)**d1 == exp(a/d2)**d2
+        for bases in self.exp_atoms.values():
+            ds = sorted(bases)
+            for d1, d2 in zip(ds, ds[1:]):
+                l = bases[d1]
+                for _ in range(d1 - 1):
+                    l = l * bases[d1]
+                r = bases[d2]
+                for _ in range(d2 - 1):
+                    r = r * bases[d2]
+                ax.append(l == r)
         # inverse pairs
         for (a1, v1) in self.apps.get('exp', []):
             for (a2, v2) in self.apps.get('log', []):
